@@ -3,13 +3,18 @@ NOTES = ('Technique family: machine-checked proof in Coq 8.16.1. See DESIGN.md. 
 CORR = 'Coq theorem over hand-written Gallina model + differential correspondence (vm_compute) against the running code'
 CLAIMED = {
     'C13': {
-        'text': 'proof: for all line-matcher/integer-matcher expressions and all texts, the Gallina model of the read-ahead '
+        'text': 'proof: (1) filter LINE-MATCHER: for all line-matcher/integer-matcher expressions and all texts, the Gallina model of the read-ahead '
                 'analysis + reader + per-line test equals per-line filtering (C13_filter_exact, C13_int_interval_sound, '
-                'C13_line_interval_pos_sound, C13_reader_exact; closed under the global context); the pre-fix algorithm is '
-                'refuted by witness. The model is tied to the code by ~4000 differential cases per quick run.',
-        'note': 'trusted: Coq kernel + vm_compute; the hand-written model of matcher_interval/combinations/intervals/'
-                'model_construction (checked against the running code by correspondence, not verified); contents matchers '
-                'are oracles; the -line-nums half (range_merge/sources) is modelled and proved separately (see evidence).',
+                'C13_line_interval_pos_sound, C13_reader_exact); the pre-fix algorithm is refuted by witness. (2) filter -line-nums: for all lists of '
+                'ranges (any form, signs, 0, reversed, overlapping) and all texts incl. the empty one, the model of range_merge / the ten single-range '
+                'streaming algorithms with their pockets / the segment walker outputs exactly the lines whose number lies in some range and raises no '
+                'IndexError (C13_line_nums_exact, C13_single_range_correct, C13_multiple_ranges_correct, C13_merge_preserves_set, C13_merge_invariant, '
+                'C13_segments_walk_correct, ...). All closed under the global context. Tie: ~13000 differential cases per quick run (expressions x texts; '
+                'exhaustive small-scope ranges + random range lists, one transformer object applied to several texts, whole-program runs).',
+        'note': 'trusted: Coq kernel + vm_compute; the hand-written models of matcher_interval/combinations/intervals/model_construction and of '
+                'filter/line_nums (Python iterators as lists, deque as list, IndexError as None), checked against the running code by correspondence, not '
+                'verified; contents matchers are oracles; the range-expression parser is exercised through the real parser (integer literals only); '
+                'string-source plumbing (freezing, tmp files) belongs to C14.',
         'technique': CORR,
     },
 }
